@@ -19,6 +19,7 @@ func init() {
 			negotiateExtensionsRules(c, "C09")
 			headerWriterRules(c, "C09")
 			builtinStatusRules(c, "C09")
+			readLineRules(c, "C09")
 		},
 	})
 }
